@@ -74,41 +74,37 @@ def run(F, R, tier):
     # ---- (a0) default justification and where the padding goes ------------------------------------------------------------------
     from .lib import decide as D
     from .lib import fmtargs as FA2
-    defaults = []
-    for m in H.walk(bo):
-        if m.get("k") == "match" and not H.is_try(m) and any({H.last(v) for v in H.pat_variants(a["pat"])} == {"Default"} for a in m["arms"]):
-            for a in m["arms"]:
-                if {H.last(v) for v in H.pat_variants(a["pat"])} == {"Default"} and any("SpecJustify::" in (H.ctor_of(x) or "") for x in H.walk(a["body"])):
-                    defaults.append(a["body"])
-    ok, det = bool(defaults), "no `Default => ..` arm that chooses a justification"
-    for d_ in defaults:
-        rows, why = D.table_expr(F, d_)
-        if rows is None:
-            ok, det = False, why
-            break
-        o2, det = D.check(rows, [(r"^\w+ : Object$", "kind")], {"kind": ("Integer", "Float", "Byte", "Str", "Char", "Bool", "Null", "Arr", "Map", "other")},
-                          lambda e: "SpecJustify::Right" if e["kind"] == "Integer" else "SpecJustify::Left")
-        ok = ok and o2
-        if not o2:
-            break
-    R.ob("default-justify", "without `<` / `>` an integer is padded on the left (right-justified), every other value on the right", ok, det, F.loc(fo))
-    place = {}
-    for m in H.walk(bo):
-        if m.get("k") == "match" and not H.is_try(m):
-            for a in m["arms"]:
-                vs = {H.last(v) for v in H.pat_variants(a["pat"])}
-                if vs in ({"Left"}, {"Right"}):
-                    for _, parts in FA2.sites(a["body"]):
-                        names = [H.render(H.strip(pt[1])) for pt in parts if pt[0] == "arg"]
-                        lits = [pt[1] for pt in parts if pt[0] == "lit"]
-                        if len(names) == 2 and not lits:
-                            place[next(iter(vs))] = names
-    ok = set(place) == {"Left", "Right"} and place["Left"] == list(reversed(place["Right"])) and place["Left"][0] != place["Left"][1]
-    # which of the two is the padding: the one built by repeat()
-    pad_names = {x["pat"]["name"] for x in H.walk(bo) if x.get("k") == "let" and x.get("pat", {}).get("k") == "bind" and x.get("init") is not None
-                 and any(c.get("k") == "mcall" and c["m"] == "repeat" for c in H.walk(x["init"]))}
-    ok = ok and place["Left"][1] in pad_names and place["Right"][0] in pad_names
-    R.ob("default-justify", "Left writes the value then the padding, Right the padding then the value", ok, str(place), F.loc(fo))
+    # the two ways the padded text is put together (format! with two arguments, one of them the repeated fill) are marked,
+    # and the conditional that chooses between them is read as a decision table over the alignment and the value's kind
+    pad_ids = {x["pat"]["id"] for x in H.walk(bo) if x.get("k") == "let" and x.get("pat", {}).get("k") == "bind" and x.get("init") is not None
+               and any(c.get("k") == "mcall" and c["m"] == "repeat" for c in H.walk(x["init"]))}
+    marks = {}
+    for node in H.walk(bo):
+        if node.get("k") != "call" or not (node.get("callee") or "").endswith("fmt::format"):
+            continue
+        for _, parts in FA2.sites(node):
+            args_ = [pt[1] for pt in parts if pt[0] == "arg"]
+            lits_ = [pt[1] for pt in parts if pt[0] == "lit"]
+            if len(args_) == 2 and not lits_:
+                is_pad = [any(c.get("k") == "mcall" and c["m"] == "repeat" for c in H.walk(a_)) or H.local_id(H.strip(a_)) in pad_ids for a_ in args_]
+                if is_pad in ([True, False], [False, True]):
+                    marks[id(node)] = {"k": "lit", "lk": "str", "v": "pad-first" if is_pad[0] else "value-first", "ty": "&str"}
+    mbo = H.replace_nodes(bo, marks)
+    kinds_seen = lambda x: {y.get("v") for y in H.walk(x) if y.get("k") == "lit" and y.get("v") in ("pad-first", "value-first")}
+    holders = sorted([x for x in H.walk(mbo) if x.get("k") in ("if", "match") and not H.is_try(x) and kinds_seen(x) == {"pad-first", "value-first"}], key=H._size)
+    ok, det = False, "the two layouts (fill first / value first) were not found under one decision: %s" % sorted(m_["v"] for m_ in marks.values())
+    if holders:
+        # the decision may depend on locals computed before it (`let justify = match justify { Default => .. }`): evaluate the
+        # function body up to and including the holder
+        rows, why = D.table_expr(F, mbo, inline=False, upto=holders[0])
+        det = why
+        if rows is not None:
+            rows2 = [(e_, "pad-first" if "pad-first" in str(r_) else ("value-first" if "value-first" in str(r_) else "neither")) for e_, r_ in rows]
+            ok, det = D.check(rows2, [(r"^\w+ : SpecJustify$", "just"), (r"^\w+ : Object$", "kind")],
+                              {"just": ("Left", "Right", "Default"), "kind": ("Integer", "Float", "Byte", "Str", "Char", "Bool", "Null", "Arr", "Map", "other")},
+                              lambda e_: "value-first" if e_["just"] == "Left" else ("pad-first" if (e_["just"] == "Right" or e_["kind"] == "Integer") else "value-first"))
+    R.ob("default-justify", "`<` pads on the right, `>` on the left; without either an integer is padded on the left (right-justified), every other value on the right",
+         ok, det, F.loc(fo))
     # ---- (a) letter → number format → trait ----------------------------------------------------------------------------------
     letter = {}
     enum_ty = None
